@@ -55,7 +55,8 @@ def plan(tier, seed):
 def floors(tier):
     return {"distinct_nontrivial": 500, "lookups": 20000, "retrieve.exact": 10000, "check.compared": 10000,
             "cls:full_binding_history": 50, "cls:partial_binding_history": 500, "cls:overwrite": 100, "cls:clear": 100,
-            "cls:extra_nonkey_entries": 100, "cls:values_shared_between_keys": 500, "cls:falsy_and_repeated_outputs": 300}
+            "cls:extra_nonkey_entries": 100, "cls:values_shared_between_keys": 500, "cls:falsy_and_repeated_outputs": 300,
+            "cls:raw_values_incl_None": 300}
 
 
 def _bindings(nkeys, alpha=2):
@@ -74,7 +75,8 @@ def cases(spec, ctx):
             for seq in itertools.product(range(len(bs)), repeat=n):
                 if i % spec["stride"] == spec["offset"]:
                     yield {"k": "exh", "nkeys": spec["nkeys"], "alpha": 2, "ops": [["ins", bs[j]] for j in seq], "lookups": "all",
-                           "only_last": True, "shared_values": i % 2 == 1, "plain_outputs": i % 3 == 2}
+                           "only_last": True, "shared_values": i % 2 == 1, "plain_outputs": i % 3 == 2,
+                           "raw_values": i % 5 == 4}
                 i += 1
         return
     for i in range(spec["n"]):
@@ -101,12 +103,13 @@ def cases(spec, ctx):
             l = [rng.randrange(alpha) if rng.random() < 0.6 else None for _ in range(nkeys)]
             lookups.append([l, rng.random() < 0.25])
         yield {"k": "rand", "nkeys": nkeys, "alpha": alpha, "ops": ops, "lookups": lookups, "only_last": False,
-               "shared_values": rng.random() < 0.5, "plain_outputs": rng.random() < 0.4}
+               "shared_values": rng.random() < 0.5, "plain_outputs": rng.random() < 0.4,
+               "raw_values": rng.random() < 0.15}
 
 
 # ------------------------------------------------------------------------------------------------ models
 def canon(r, o):
-    return (tuple(sorted((k, getattr(v, "id_", None)) for k, v in r.items())), o)
+    return (tuple(sorted((k, getattr(v, "id_", None) if hasattr(v, "id_") else "raw:" + repr(v)) for k, v in r.items())), o)
 
 
 def spec_retrieve(model, l):
@@ -124,6 +127,10 @@ def spec_check(model, l, keys):
     return any(all(k in lk and lk[k] == v for k, v in mb.items()) for mb, _ in model)
 
 
+def _gid(v):
+    return v.id_ if hasattr(v, "id_") else ("raw", repr(v))
+
+
 def deviation_retrieve(model, keys, l):
     """K20: at a bound level a concrete match hides the wildcard sibling, at an unbound level a wildcard child hides the
     concrete siblings; walked over the reference model arranged as the trie the implementation would build."""
@@ -138,9 +145,9 @@ def deviation_retrieve(model, keys, l):
         k = keys[idx]
         groups = {}
         for e in entries:
-            groups.setdefault(e[0][k].id_ if k in e[0] else WILD, []).append(e)
+            groups.setdefault(_gid(e[0][k]) if k in e[0] else WILD, []).append(e)
         if k in l:
-            cid = l[k].id_
+            cid = _gid(l[k])
             if cid in groups:
                 rec(groups[cid], idx + 1, res)
             elif WILD in groups:
@@ -159,12 +166,24 @@ def deviation_retrieve(model, keys, l):
     return out
 
 
+RAW = [None, "b", 0]
+
+
+def _show(v):
+    return v.value[2] if hasattr(v, "value") and isinstance(v.value, tuple) and len(v.value) > 2 else repr(getattr(v, "value", v))
+
+
 def check_case(case, ctx):
     from entity_query_language.cache_data import IndexedCache
     from entity_query_language.hashed_data import HashedValue
     nkeys, alpha = case["nkeys"], case["alpha"]
     keys = [3, 7, 11, 19][:nkeys]
-    if case.get("shared_values"):
+    if case.get("raw_values"):
+        # bound values that are plain objects, None and 0 among them ("a small value alphabet"): an unbound key is not a
+        # key bound to None
+        vals = {k: RAW[:alpha] for k in keys}
+        ctx.cls("cls:raw_values_incl_None")
+    elif case.get("shared_values"):
         # the same value objects may be bound under different keys (a self-join over one domain does exactly that)
         shared = [HashedValue(("v", i)) for i in range(alpha)]
         vals = {k: shared for k in keys}
@@ -192,7 +211,7 @@ def check_case(case, ctx):
         else:
             b = {k: vals[k][x] for k, x in zip(keys, op[1]) if x is not None}
             # the engine stores truth flags: outputs may be falsy and need not be unique
-            out = [False, 0, True, ""][step % 4] if case.get("plain_outputs") else f"out{step}"
+            out = [False, 0, True, "", None][step % 5] if case.get("plain_outputs") else f"out{step}"
             if any(mb == b for mb, _ in model):
                 ctx.cls("cls:overwrite")
             cache.insert(dict(b), out)
@@ -216,7 +235,7 @@ def check_case(case, ctx):
                     return
                 if bool(got_c) != want:
                     ctx.fail("CHECK", {"step": step, "lookup": lspec, "expected": want, "observed": bool(got_c),
-                                       "stored": [[[k, v.value[2]] for k, v in mb.items()] for mb, _ in model]})
+                                       "stored": [[[k, _show(v)] for k, v in mb.items()] for mb, _ in model]})
                     return
             try:
                 got = Counter(canon(r, o) for r, o in cache.retrieve(dict(l)))
@@ -233,7 +252,7 @@ def check_case(case, ctx):
                 known_seen += 1
             else:
                 ctx.fail("RETRIEVE", {"step": step, "lookup": lspec, "with_extra": with_extra,
-                                      "stored": [[[[k, v.value[2]] for k, v in mb.items()], mo] for mb, mo in model],
+                                      "stored": [[[[k, _show(v)] for k, v in mb.items()], mo] for mb, mo in model],
                                       "expected": sorted(map(str, s.elements())), "observed": sorted(map(str, got.elements()))})
                 return
         if op[0] == "clear":
